@@ -21,7 +21,7 @@ func init() {
 			"typed empty / non-empty Go slices and maps ([]string, []int, map[string]string) stand for lists and maps in truthiness probes",
 			"the reference interpreter (internal/mt) is trusted to transcribe the statement",
 		},
-		quick: 100000, thorough: 500000, minQuick: 10000, minThorough: 100000,
+		quick: 100000, thorough: 1500000, minQuick: 10000, minThorough: 100000,
 	}})
 }
 
